@@ -1119,3 +1119,51 @@ func lenLowerBound(fn *ssa.Function, x ssa.Value, b *ssa.BasicBlock, d int) int6
 	}
 	return lo
 }
+
+// ---- R108: the row count is only ever tested against zero ----
+
+func init() {
+	register(&Rule{ID: "R108", Name: "ROWCOUNT-ZERO", Floor: 2,
+		Text: "in the root package every equality test of a frame's row count (QFrame.Len(), index.Int.Len(), len of a row index) against a constant compares with 0: the special cases of Distinct and GroupBy are `the frame has no rows`; a test against 1 would return no groups / no rows for a frame of exactly one row",
+		Run:  runR108})
+}
+
+func runR108(c *Ctx) {
+	p := c.P
+	for _, fn := range p.FuncsIn("") {
+		fnm := fname(fn)
+		eachInstr(fn, func(in ssa.Instruction) {
+			b, ok := in.(*ssa.BinOp)
+			if !ok || b.Op != token.EQL && b.Op != token.NEQ {
+				return
+			}
+			k, isK := constInt(b.Y)
+			if !isK {
+				return
+			}
+			call, ok := b.X.(*ssa.Call)
+			if !ok {
+				return
+			}
+			isRows := false
+			if callee := call.Call.StaticCallee(); callee != nil && callee.Name() == "Len" && callee.Signature.Recv() != nil {
+				rt := deref(callee.Signature.Recv().Type())
+				if isFrameType(rt) || isIntIndexType(rt) {
+					isRows = true
+				}
+			}
+			if builtinName(call) == "len" && isIntIndexType(call.Call.Args[0].Type()) {
+				isRows = true
+			}
+			if !isRows {
+				return
+			}
+			key := fnm + "|row count test"
+			if k == 0 {
+				c.ok(key, p.instrPos(b), "compares the row count with 0")
+			} else {
+				c.bad(key, p.instrPos(b), fmt.Sprintf("the row count is compared with %d: the `no rows` special case is taken (or missed) for frames of %d row(s)", k, k))
+			}
+		})
+	}
+}
